@@ -1,5 +1,6 @@
 import Model.Common.Proto
 import Model.C15.Wire
+import Model.C15.Text
 import Generated.Miniscript
 open Btc Btc.Miniscript Btc.Miniscript.Wire
 
@@ -22,6 +23,14 @@ def handle : List String → String
       match script c (lookup t) n with
       | some b => s!"ok {toHex b}"
       | none => "err value"
+  | "str" :: ctx :: toks => withMs ctx toks fun _ n => s!"ok {String.ofList (toText n)}"
+  | ["parse", ctx, hex] =>
+    match ctxOf? ctx, fromHex? hex with
+    | some c, some b =>
+      match parse c (b.map fun x => Char.ofNat x.toNat) with
+      | some n => "ok " ++ " ".intercalate (render n)
+      | none => "err value"
+    | _, _ => "bad-op"
   | "pushnum" :: [n] =>
     match n.toNat? with
     | some n => s!"ok {toHex (pushNum n)}"
